@@ -450,7 +450,7 @@ func init() {
 	fw.Register(&fw.Check{
 		ID:     "C06",
 		Level:  "exploration",
-		Rule:   "exhaustive enumeration of payload lengths 0..4097 (plus 8191,8192,8193,65535,65536,65537) × 6 source-reader behaviours (buffer, one byte per Read, halves, 1000-byte chunks, data together with EOF, zero-length reads interleaved) × directions, contents {pattern, zero, 0xFF} × 3 secrets on a length grid, all message sequences of length 2–3 over 7 boundary lengths, a 302-message counter run; every sequence of 2–3 messages over 6 lengths with all frames in ONE reader (pipelined peer), drained by repeated Decrypt calls, from a buffer and one byte per Read, produced by hc and by the reference; frame counters preset (reflection) to 2^32−2, 2^32, 2^32+1, 2^40, 2^63−1, 2^63, 2^64−5; each executed on hc's real sessions and compared byte-for-byte with the reference framing, then decrypted by hc's opposite end, and reference ciphertext decrypted by hc. distinct_nontrivial = distinct (direction, reader, frame count) classes",
+		Rule:   "exhaustive enumeration of payload lengths 0..4097 (plus 8191,8192,8193,65535,65536,65537) × 6 source-reader behaviours (buffer, one byte per Read, halves, 1000-byte chunks, data together with EOF, zero-length reads interleaved) × directions, contents {pattern, zero, 0xFF} × 3 secrets on a length grid, all message sequences of length 2–3 over 7 boundary lengths, a 302-message counter run; every sequence of 2–3 messages over 6 lengths with all frames in ONE reader (pipelined peer), drained by repeated Decrypt calls, from a buffer and one byte per Read, produced by hc and by the reference; frame counters preset (reflection) to 2^32−2, 2^32, 2^32+1, 2^40, 2^63−1, 2^63, 2^64−5; each executed on hc's real sessions and compared byte-for-byte with the reference framing, then decrypted by hc's opposite end, and reference ciphertext decrypted by hc. distinct_nontrivial = distinct (direction, reader, frame count) classes Plus, in a subprocess built with a scheduling point before EVERY statement of hc's packages (textual insertion through go build -overlay): every interleaving with at most 1 (thorough 2) preemptions of pairs of operations on disjoint objects — and, where the property is about served requests, of pairs of handlers on two verified connections of one accessory touching different characteristics — each side must observe exactly what it observes when the two run one after the other (module-level mutable state is what makes them differ).",
 		Run:    c06Run,
 		Budget: func(string) time.Duration { return 20 * time.Minute },
 		Replay: func(c *fw.Ctx, raw json.RawMessage) {
